@@ -54,6 +54,9 @@ func checkC11(c *Ctx) {
 			c.c07Batch(b)
 		}
 	}, func(o *coreObl) (string, bool) { return "R11.6", isLenObligation(o) })
+	// the breach is a breach of the documented quantity (MemStats.HeapInuse / Sys): another measure evicts fresh entries in cycles
+	// where the configured limit is not exceeded
+	c.borrow("C12", func() { c.c12MeasuredQuantity() }, func(o *coreObl) (string, bool) { return "R11.6", o.Rule == "R12.1" })
 	c.borrow("C12", func() { c.c12Cleanup() }, func(o *coreObl) (string, bool) {
 		if o.Rule != "R12.1" {
 			return "", false
